@@ -155,14 +155,18 @@ end single
 
 /-- the environment binds none of the names the generated code loads from the prelude / builtins (user variables are
     mangled to `::name_Ln` by the real compiler, so they never do) -/
-def EnvOk (env : Env) : Prop := (∀ c : Cls, env.get c.name = none) ∧ env.get "print" = none
+def EnvOk (env : Env) : Prop :=
+  (∀ c : Cls, env.get c.name = none) ∧ env.get "print" = none ∧ env.get "RightOpenRange" = none
 
 theorem lookup_cls {env : Env} (h : EnvOk env) (c : Cls) : lookup env c.name = some (.cls c) := by
   simp only [lookup, h.1 c]
   cases c <;> simp [builtin, Cls.name]
 
 theorem lookup_print {env : Env} (h : EnvOk env) : lookup env "print" = some .printFn := by
-  simp [lookup, h.2, builtin]
+  simp [lookup, h.2.1, builtin]
+
+theorem lookup_range {env : Env} (h : EnvOk env) : lookup env "RightOpenRange" = some .rangeCtor := by
+  simp [lookup, h.2.2, builtin]
 
 /-- what executing a piece of code must do, given the source-level result -/
 def ExecSpec (code : List Instr) (pc pcEnd : Nat) (st : List Val) (env : Env) (out : List (List Char)) (r : R) : Prop :=
